@@ -24,6 +24,7 @@ FS = "agdb::storage::file_storage::FileStorage"
 ROOTS = ["agdb::db::DbImpl", FS, "agdb::storage::memory_storage::MemoryStorage",
          "agdb::storage::file_storage_memory_mapped::FileStorageMemoryMapped", "agdb::storage::any_storage::AnyStorage"]
 ALLOWED_NONFREEZE = {(FS, "lock"): "Mutex<()> serialising the shared file cursor"}
+ALLOWED_TYPES = {(FS, "lock"): ("Mutex<()>",)}
 
 
 def cursor_rule(ctx):
@@ -94,7 +95,7 @@ def cursor_rule(ctx):
 
 
 
-def run(ctx):
+def interior_mutability_rule(ctx):
     fa = ctx.facts
     # ---- R23a
     MODS = ("agdb::db", "agdb::graph", "agdb::collections", "agdb::storage", "agdb::graph_search", "agdb::transaction",
@@ -117,9 +118,13 @@ def run(ctx):
         ctx.ob("R23a", "anchor:" + r, r in fa.adts, "type found" if r in fa.adts else "type `%s` not found" % r,
                key="%s|R23a|missing-anchor|%s" % (ctx.pid, r), nontrivial=False)
     for p, name, ty in sorted(set(leaves)):
-        ok = (p, name) in ALLOWED_NONFREEZE
+        ok = (p, name) in ALLOWED_NONFREEZE and ty.replace("std::sync::", "").replace("poison::mutex::", "").replace(
+            "mutex::", "") in ALLOWED_TYPES.get((p, name), ())
         ctx.ob("R23a", "%s.%s" % (p, name), ok,
                "allowed interior mutability: " + ALLOWED_NONFREEZE.get((p, name), "") if ok else
+               ("field `%s.%s` is now `%s`: the mutex that only serialised the shared file cursor guards data, i.e. state "
+                "that `&self` reads of the file-backed variant change (a cache, a remembered position): the variants can "
+                "diverge and concurrent readers depend on each other" % (p, name, ty)) if (p, name) in ALLOWED_NONFREEZE else
                "field `%s.%s: %s` introduces interior mutability into a database data structure: `&self` queries on "
                "a shared database may now race" % (p, name, ty))
     ctx.ob("R23a", "inventory", {(p, n) for p, n, t in leaves} >= set(ALLOWED_NONFREEZE),
@@ -131,6 +136,11 @@ def run(ctx):
     ctx.ob("R23a", "no-unsafe-in-agdb", not unsafe, "crate agdb has no user-written unsafe block" if not unsafe else
            "unsafe blocks in crate agdb: %s" % unsafe[:5])
 
+
+
+def run(ctx):
+    fa = ctx.facts
+    interior_mutability_rule(ctx)
     cursor_rule(ctx)
 
     # ---- R23c
